@@ -279,8 +279,43 @@ def check_testdata(base, res):
 
 
 # ---------------------------------------------------------------- driver
+SFX_SPECIAL_HEADERS = [(0, 16, 0, 0), (0, 1, 0, 0), (0, 0, 0, 0), (1, 16, 0, 0), (0, 16, 0, 1), (0, 32, 0, 0)]
+MUSIC_SPECIAL_ROWS = [(0x41, 0x42, 0x43, 0x44), (0, 0, 0, 0), (0x40, 0x40, 0x40, 0x40), (0, 1, 2, 3), (0xc1, 0x42, 0x43, 0x44)]
+
+
+def default_regions(section):
+    """Regions made of the rows an editor leaves behind: all-zero rows and PICO-8's 'never edited' rows, as the
+    whole region and as a single row at every row position among rows that are busy."""
+    out = []
+    if section == 'sfx':
+        busy = bytes((i * 7 + 3) & 0xff for i in range(64)) + bytes((1, 5, 2, 9))
+        for hdr in SFX_SPECIAL_HEADERS:
+            rec = bytes(64) + bytes(hdr)
+            out.append(rec * 64)
+            for pos in range(64):
+                out.append(busy * pos + rec + busy * (63 - pos))
+                if pos in (0, 1, 63):
+                    out.append(bytes(68) * pos + rec + bytes(68) * (63 - pos))
+    elif section == 'music':
+        busy = bytes((0x05, 0x46, 0x07, 0x48))
+        for row in MUSIC_SPECIAL_ROWS:
+            rec = bytes(row)
+            out.append(rec * 64)
+            for pos in range(64):
+                out.append(busy * pos + rec + busy * (63 - pos))
+    else:
+        size, rowlen = {'gfx': (0x2000, 64), 'map': (0x1000, 128), 'gff': (0x100, 128)}[section]
+        nrows = size // rowlen
+        busy = bytes(((i * 5 + 1) & 0xff) or 1 for i in range(rowlen))
+        out.append(bytes(size))
+        for pos in range(nrows):
+            out.append(busy * pos + bytes(rowlen) + busy * (nrows - 1 - pos))
+            out.append(bytes(rowlen) * pos + busy + bytes(rowlen) * (nrows - 1 - pos))
+    return out
+
+
 def shards(tier, seed):
-    items = []
+    items = [('defaults', sec) for sec in ('sfx', 'music', 'gfx', 'map', 'gff')]
     for lo in range(0, 256, 16):
         items.append(('sfx', lo, lo + 16))
         items.append(('rot', lo, lo + 16))
@@ -308,6 +343,12 @@ def run_shard(item):
         res.count('sfx_note_words', 2048 * (item[2] - item[1]))
         if item[1] == 0:
             res.sample({'section': 'sfx', 'first_record': bytes(sfx_region(1)[:68])})
+    elif kind == 'defaults':
+        regs = default_regions(item[1])
+        for mem in regs:
+            check_region(item[1], mem, res)
+        res.count('default_row_regions', len(regs))
+        res.sample({'section': item[1], 'family': 'defaults', 'mem_prefix': regs[1][:72]})
     elif kind == 'rot':
         for k in range(item[1], item[2]):
             check_region('gff', rot_region(256, k), res)
